@@ -2,10 +2,12 @@
 
 Proved (window contract of Scores.auc, all axis pairs): the body is executed with the rate methods replaced by their contract
 (an opaque array over the sorted evaluation points: values in [0,1], monotone in the direction given by the decision rule -- the
-monotonicity itself is C15's obligation): the evaluation points are the sorted ulp-neighbours of all scores; after the optional
-reversal x is ascending (pre-condition of both searchsorted calls); all index accesses are in bounds; window *soundness and
-completeness*: a node k lies in [left, right) iff lower <= x[k] <= upper (unclamped case); the integration nodes are ascending
-from lower to upper; the two cut values are y[left], y[right-1]; the result is |trapz| >= 0.
+monotonicity itself is C15's obligation): the evaluation points are the sorted ulp-neighbours of all scores; all index accesses are
+in bounds and both searchsorted calls get ascending arrays (safety obligations); and, stated on the two arrays that reach the
+integration primitive (np.trapezoid / np.trapz) -- independent of local names and helper functions --: with the curve taken in the
+direction of increasing x and the specification's cuts L = #{x < lower}, R = #{x <= upper}, in the unclamped case the nodes are
+lower, X[L..R), upper (soundness and completeness of the window), the values are Y[L], Y[L..R), Y[R-1], the nodes ascend; the
+result is |trapz| >= 0.
 Bounded (exhaustive weak orderings): equality with the Mann-Whitney statistic (ties 1/2, easy samples beyond), exact step area,
 additivity over adjacent intervals, <= upper-lower, the three complement identities.
 """
@@ -67,9 +69,15 @@ def build_one(sc, ec, x_axis, y_axis):
             path.add(ForAll([i, j], Implies(And(0 <= i, i <= j, j < n), (R[i] <= R[j]) if d > 0 else (R[i] >= R[j])), patterns=[MultiPattern(R[i], R[j])]))
             t = T((Axis(name, n),), lambda k, R=R: R[toI(k)], prov="fresh", sym=(R, n))
             t.facts["dir"] = d
+            state.setdefault("rates", {})[name] = (R, n)
             return t
         return c
-    ex = new_exec(contracts={("Scores", r): rate_contract(r) for r in RATES})
+
+    def trapz_contract(ex_, path_, y, x, *a, **k):
+        # the integration primitive: records the nodes it is handed (np.trapezoid and the deprecated np.trapz)
+        state.setdefault("trapz", []).append((y, x, list(path_.pc)))
+        return P.PRIMS["np.trapezoid"](ex_, path_, y, x)
+    ex = new_exec(contracts={("Scores", r): rate_contract(r) for r in RATES}, extra_prims={"np.trapezoid": trapz_contract, "np.trapz": trapz_contract})
     path = Path()
     me = mk_scores(ex, path, sc, ec, min_pos=1, min_neg=1)
     lower, upper = Real("lower"), Real("upper")
@@ -100,16 +108,8 @@ def build_one(sc, ec, x_axis, y_axis):
             ob("points/row1-is-the-upper-ulp-neighbour-of-each-score", toR(flat.elem(1, k)) == P.nxt_up(score), hy)
             ob("points/cover-all-scores", toI(flat.axes[1].size) == npos + nneg, path.pc)
     for pi, o in enumerate(live):
-        ptag = f"/path{pi}"
-        env = o.env
-        hy = o.path.pc
-        x2, y2 = env.get("x"), env.get("y")            # after the window concatenation
-        left, right = toI(env.get("left")), toI(env.get("right"))
-        # recover the arrays the window was cut from: the (possibly reversed) contract arrays
-        xs = [t for (nm, _), t in zip(pts, [None, None])]
-        ob(f"result-is-nonnegative{ptag}", toR(o.value) >= 0, hy)
-    # window obligations need the pre-concatenation arrays: re-run the window logic on the recorded environment
-    obs += window_obligations(ex, live, tag, lower, upper)
+        ob(f"result-is-nonnegative/path{pi}", toR(o.value) >= 0, o.path.pc)
+    obs += window_obligations(ex, live, tag, lower, upper, state, x_axis, y_axis)
     for so in ex.obligs:
         so.id = f"C07/auc/safety:{so.id}#{len(obs)}{tag}"
         so.props = ("C07",)
@@ -117,63 +117,49 @@ def build_one(sc, ec, x_axis, y_axis):
     return obs
 
 
-def window_obligations(ex, live, tag, lower, upper):
-    """the environment at return keeps `left`, `right` and the concatenated x / y; the ascending array the window was taken from is
-    recovered from the slices inside the concatenation (parts[1] of x is the view x[left:right])"""
+def window_obligations(ex, live, tag, lower, upper, state, x_axis, y_axis):
+    """The window is specified on what the integration primitive receives, whatever local names and helpers the code uses.
+    With X, Y the curve in ascending x-order (the rate arrays, reversed iff x decreases along the evaluation points), the
+    specification's cuts are L = #{x < lower} and R = #{x <= upper}.  In the unclamped case (L <= n-1, R >= 1) the integration nodes
+    are  lower, X[L..R), upper  and the values  Y[L], Y[L..R), Y[R-1]."""
+    from z3 import If
     obs = []
-    for pi, o in enumerate(live):
+    tz = state.get("trapz", [])
+    rates = state.get("rates", {})
+    if len(tz) != len(live) or x_axis not in rates or y_axis not in rates:
+        obs.append(Oblig(f"C07/auc/window/integration-call-recognised{tag}", [], BoolVal(False), "structural", ("C07",),
+                         {"engine_error": f"{len(tz)} integration calls on {len(live)} paths"}))
+        return obs
+    (Rx, n), (Ry, _) = rates[x_axis], rates[y_axis]
+    n = toI(n)
+    rev = Rx[n - 1] < Rx[0]
+    Xs = lambda k: If(rev, Rx[n - 1 - k], Rx[k])
+    Ys = lambda k: If(rev, Ry[n - 1 - k], Ry[k])
+    XA = Array(f"x_ascending!{next(ex.fresh)}", IntSort(), RealSort())        # named copy of X for the counting functions
+    q = Int("q!xa")
+    for pi, (yi, xi, pc) in enumerate(tz):
         ptag = f"/path{pi}"
-        env, hy = o.env, o.path.pc
-        xc, yc = env.get("x"), env.get("y")
-        parts = getattr(xc, "parts", None)
-        if not parts or len(parts) != 3:
-            obs.append(Oblig(f"C07/auc/window/structure{ptag}{tag}", [], BoolVal(False), "structural", ("C07",), {"engine_error": "window structure not recognised"}))
-            continue
-        left, right = toI(env["left"]), toI(env["right"])
-        mid = parts[1]
-        n_mid = toI(mid.axes[0].size)
-        # the sliced view knows its offset: element k of the view is X[left + k]
+        hy = list(pc) + [ForAll([q], XA[q] == Xs(q), patterns=[XA[q]]), P.cnt_char(XA, n, lower), P.cnt_char(XA, n, upper), P.sorted_formula(XA, n)]
+        L, R = P.cnt_lt(XA, n, lower), P.cnt_le(XA, n, upper)
+        unclamped = And(L <= n - 1, R >= 1)
+        ni = toI(xi.axes[0].size)
         k = ex.new_int("k")
-        src = getattr(mid, "view_src", None)
-        if src is None:
-            obs.append(Oblig(f"C07/auc/window/structure{ptag}{tag}", [], BoolVal(False), "structural", ("C07",), {"engine_error": "slice source unknown"}))
-            continue
-        X, N = src
-        Xk = lambda kk: toR(X.elem(kk))
 
         def ob(name, goal, extra=(), kind="post"):
-            obs.append(Oblig(f"C07/auc/window/{name}{ptag}{tag}", hy + list(extra), goal, kind, ("C07",), {"key": f"C07/auc/window/{name}"}))
-        n = toI(N)
-        # the two raw cuts (before the clamping lines) are the searchsorted results recorded on this path
-        ids = {f.get_id() for f in hy}
-        ss = [e_ for e_ in getattr(ex, "ss_log", []) if e_["fact"] in ids]
-        if len(ss) != 2:
-            # the window is not computed by two searchsorted calls: the contract cannot be phrased -> undecided, not a verdict
-            obs.append(Oblig(f"C07/auc/window/two-cuts-recognised{ptag}{tag}", [], BoolVal(False), "structural", ("C07",),
-                             {"engine_error": f"window cuts not recognised: {[e_['side'] for e_ in ss]}"}))
-            continue
-        # the unclamped case is phrased with the *specification's* cuts (first index with x >= lower, first index with x > upper),
-        # whatever the code computes
-        raw_l, raw_r = P.cnt_lt(ss[0]["A"], ss[0]["N"], lower), P.cnt_le(ss[0]["A"], ss[0]["N"], upper)
-        hy = hy + [P.cnt_char(ss[0]["A"], ss[0]["N"], lower), P.cnt_char(ss[0]["A"], ss[0]["N"], upper)]
-        hy = hy + [ss[0]["v"] == lower, ss[1]["v"] == upper] if False else hy
-        unclamped = And(raw_l <= n - 1, raw_r >= 1)
-        A_ = ss[0]["A"]
-        Xk = lambda kk: A_[toI(kk)]            # the searched (named, ascending) array
-        ob("soundness: nodes inside [left,right) have lower <= x <= upper", Implies(And(unclamped, left <= k, k < right), And(lower <= Xk(k), Xk(k) <= upper)), [0 <= k, k < n])
-        ob("completeness: nodes with lower <= x <= upper lie inside [left,right)", Implies(And(lower <= Xk(k), Xk(k) <= upper), And(left <= k, k < right)), [0 <= k, k < n])
-        ob("slice-is-x[left:right]", And(n_mid == If(right - left >= 0, right - left, 0), Implies(k < n_mid, toR(mid.elem(k)) == Xk(left + k))), [0 <= k, k < n])
-        ob("end-nodes-are-lower-and-upper", And(toR(parts[0].elem(0)) == lower, toR(parts[2].elem(0)) == upper))
+            obs.append(Oblig(f"C07/auc/window/{name}{ptag}{tag}", hy + list(extra), goal, kind, ("C07",), {"key": f"C07/auc/window/{name}", "idx": [str(k)]}))
+        i0, j0 = ex.new_int("i"), ex.new_int("j")
+        obs.append(Oblig(f"C07/auc/window/lemma: the curve taken in the direction of increasing x is ascending{ptag}{tag}", list(pc),
+                         Implies(And(0 <= i0, i0 <= j0, j0 < n), Xs(i0) <= Xs(j0)), "lemma", ("C07",), {"key": "C07/auc/window/lemma-ascending", "idx": [str(i0), str(j0), str(n - 1 - i0), str(n - 1 - j0)]}))
+        ob("x-and-y-nodes-have-equal-length", toI(yi.axes[0].size) == ni)
+        ob("end-nodes-are-lower-and-upper", And(ni >= 2, toR(xi.elem(0)) == lower, toR(xi.elem(ni - 1)) == upper))
+        ob("number-of-nodes-is-window-size+2", Implies(unclamped, ni == R - L + 2))
+        ob("soundness+completeness: inner nodes are exactly the curve points with lower <= x <= upper, in order",
+           Implies(And(unclamped, 0 <= k, k < R - L), And(toR(xi.elem(1 + k)) == Xs(L + k), lower <= Xs(L + k), Xs(L + k) <= upper)))
+        ob("completeness: every curve point with lower <= x <= upper is an inner node", Implies(And(unclamped, 0 <= k, k < n, lower <= Xs(k), Xs(k) <= upper), And(L <= k, k < R)))
+        ob("inner values are the curve values at the inner nodes", Implies(And(unclamped, 0 <= k, k < R - L), toR(yi.elem(1 + k)) == Ys(L + k)))
+        ob("cut-values-are-the-curve-values-at-the-first-and-last-inner-node", Implies(And(unclamped, R - L >= 1), And(toR(yi.elem(0)) == Ys(L), toR(yi.elem(ni - 1)) == Ys(R - 1))))
         i, j = ex.new_int("i"), ex.new_int("j")
-        tot = toI(xc.axes[0].size)
-        ob("integration-nodes-ascending", Implies(unclamped, toR(xc.elem(i)) <= toR(xc.elem(j))), [0 <= i, i <= j, j < tot])
-        yparts = getattr(yc, "parts", None)
-        if yparts and len(yparts) == 3:
-            ysrc = getattr(yparts[1], "view_src", None)
-            if ysrc is not None:
-                Y, _ = ysrc
-                ob("cut-values-are-y[left]-and-y[right-1]", And(toR(yparts[0].elem(0)) == toR(Y.elem(left)), toR(yparts[2].elem(0)) == toR(Y.elem(right - 1)),
-                                                                 toR(yparts[1].elem(k)) == toR(Y.elem(left + k))), [0 <= k, k < n_mid])
+        ob("integration-nodes-ascending", Implies(And(unclamped, 0 <= i, i <= j, j < ni), toR(xi.elem(i)) <= toR(xi.elem(j))))
     return obs
 
 
